@@ -1,1 +1,421 @@
 // Kani contract harnesses for /repo/arrow-row/src/variable.rs (child module: sees private items via super::)
+use super::*;
+use std::cmp::Ordering;
+#[path = "/verif/kani/support/spec.rs"]
+mod spec;
+use spec::*;
+
+/// lexicographic order of two byte strings of arbitrary lengths: first difference decides, otherwise the
+/// shorter one (a proper prefix) is smaller. Written as a scan, independent of std's slice Ord.
+fn lex_s(a: &[u8], b: &[u8]) -> Ordering {
+    let n = if a.len() < b.len() { a.len() } else { b.len() };
+    let mut i = 0;
+    while i < n {
+        if a[i] != b[i] { return if a[i] < b[i] { Ordering::Less } else { Ordering::Greater }; }
+        i += 1;
+    }
+    if a.len() < b.len() { Ordering::Less } else if a.len() > b.len() { Ordering::Greater } else { Ordering::Equal }
+}
+fn rev_if(o: Ordering, d: bool) -> Ordering {
+    if !d { o } else { match o { Ordering::Less => Ordering::Greater, Ordering::Greater => Ordering::Less, Ordering::Equal => Ordering::Equal } }
+}
+fn any_opts() -> SortOptions { SortOptions { descending: kani::any(), nulls_first: kani::any() } }
+
+/// closed form of the documented layout: 1 sentinel byte + mini-blocks of 8 (+1 marker) up to 32 bytes,
+/// beyond that 4 mini-blocks' markers + blocks of 32 (+1 marker)
+const fn spec_padded(len: usize) -> usize {
+    if len <= 32 { 1 + ((len + 7) / 8) * 9 } else { 4 + ((len + 31) / 32) * 33 }
+}
+
+// Output buffers are sized exactly spec_padded(len) + 1 guard byte (const parameter computed by the macros):
+// CBMC keeps arrays of <= 64 elements field-sensitive, which lets the block markers constant-fold
+// (measured: a fixed 112-byte buffer made the 33-byte round trip 8x slower).
+
+// Contract (C11), variable-length encoding, ORDER part, at a CONCRETE pair of lengths (LA, LB) with symbolic
+// contents and symbolic (descending, nulls_first):
+//  (a) encode_one returns spec_padded(len) (closed form above) == padded_length(Some(len)), and writes nothing
+//      beyond that many bytes (guard byte after the row unchanged);
+//  (c) enc(a) <lex enc(b)  <=>  a <lex b  for ascending, reversed for descending, Equal <=> a == b
+//      (compared on the exact encoded slices, as Row::cmp does on the concatenated row bytes).
+fn var_order<const LA: usize, const LB: usize, const NA: usize, const NB: usize>() {
+    let a: [u8; LA] = kani::any();
+    let b: [u8; LB] = kani::any();
+    let opts = any_opts();
+    let g: u8 = kani::any();
+    let mut oa = [0u8; NA];
+    let mut ob = [0u8; NB];
+    oa[spec_padded(LA)] = g;
+    let na = encode_one(&mut oa, Some(&a), opts);
+    let nb = encode_one(&mut ob, Some(&b), opts);
+    // (a)
+    assert!(na == spec_padded(LA) && nb == spec_padded(LB));
+    assert!(padded_length(Some(LA)) == na && padded_length(Some(LB)) == nb);
+    assert!(oa[na] == g);
+    // (c)
+    let want = rev_if(lex_s(&a, &b), opts.descending);
+    assert!(lex_s(&oa[..na], &ob[..nb]) == want);
+    // vacuity guards (phrased so that they are satisfiable at every grid point, incl. the empty string)
+    let trivial = LA == 0 || LB == 0;
+    kani::cover!(opts.descending && (trivial || want == Ordering::Less));
+    kani::cover!(!opts.descending && (trivial || want == Ordering::Less));
+    kani::cover!(want == Ordering::Greater || (LA == 0 && LB == 0));
+    kani::cover!(LA != LB || want == Ordering::Equal);
+    // one value is a proper prefix of the other (the case the block markers exist for)
+    let m = if LA < LB { LA } else { LB };
+    let mut same = true;
+    let mut k = 0;
+    while k < m { if a[k] != b[k] { same = false; } k += 1; }
+    kani::cover!(same);
+}
+macro_rules! var_order_unit {
+    ($name:ident, $la:expr, $lb:expr) => {
+        #[kani::proof]
+        fn $name() { var_order::<$la, $lb, { spec_padded($la) + 1 }, { spec_padded($lb) + 1 }>() }
+    };
+}
+// quick diagonal: every mini-block edge (8/16/24/32), the first 32-byte block edge (32|33, 64|65), empty
+// @unit name=var_order_0_1 props=C11 kind=bounded bound=lengths_0_and_1_contents_symbolic fns=variable::encode_one,variable::encode_blocks,variable::encode_empty,variable::padded_length,variable::non_null_padded_length mem=3 timeout=900
+var_order_unit!(var_order_0_1, 0, 1);
+// @unit name=var_order_1_1 props=C11 kind=bounded bound=lengths_1_and_1_contents_symbolic fns=variable::encode_one,variable::encode_blocks,variable::encode_empty,variable::padded_length,variable::non_null_padded_length mem=3 timeout=900
+var_order_unit!(var_order_1_1, 1, 1);
+// @unit name=var_order_7_8 props=C11 kind=bounded bound=lengths_7_and_8_contents_symbolic fns=variable::encode_one,variable::encode_blocks,variable::encode_empty,variable::padded_length,variable::non_null_padded_length mem=3 timeout=900
+var_order_unit!(var_order_7_8, 7, 8);
+// @unit name=var_order_8_9 props=C11 kind=bounded bound=lengths_8_and_9_contents_symbolic fns=variable::encode_one,variable::encode_blocks,variable::encode_empty,variable::padded_length,variable::non_null_padded_length mem=3 timeout=900
+var_order_unit!(var_order_8_9, 8, 9);
+// @unit name=var_order_9_16 props=C11 kind=bounded bound=lengths_9_and_16_contents_symbolic fns=variable::encode_one,variable::encode_blocks,variable::encode_empty,variable::padded_length,variable::non_null_padded_length mem=3 timeout=900
+var_order_unit!(var_order_9_16, 9, 16);
+// @unit name=var_order_16_17 props=C11 kind=bounded bound=lengths_16_and_17_contents_symbolic fns=variable::encode_one,variable::encode_blocks,variable::encode_empty,variable::padded_length,variable::non_null_padded_length mem=3 timeout=900
+var_order_unit!(var_order_16_17, 16, 17);
+// @unit name=var_order_24_25 props=C11 kind=bounded bound=lengths_24_and_25_contents_symbolic fns=variable::encode_one,variable::encode_blocks,variable::encode_empty,variable::padded_length,variable::non_null_padded_length mem=3 timeout=900
+var_order_unit!(var_order_24_25, 24, 25);
+// @unit name=var_order_31_32 props=C11 kind=bounded bound=lengths_31_and_32_contents_symbolic fns=variable::encode_one,variable::encode_blocks,variable::encode_empty,variable::padded_length,variable::non_null_padded_length mem=3 timeout=900
+var_order_unit!(var_order_31_32, 31, 32);
+// @unit name=var_order_32_33 props=C11 kind=bounded bound=lengths_32_and_33_contents_symbolic fns=variable::encode_one,variable::encode_blocks,variable::encode_empty,variable::padded_length,variable::non_null_padded_length mem=3 timeout=900
+var_order_unit!(var_order_32_33, 32, 33);
+// @unit name=var_order_33_33 props=C11 kind=bounded bound=lengths_33_and_33_contents_symbolic fns=variable::encode_one,variable::encode_blocks,variable::encode_empty,variable::padded_length,variable::non_null_padded_length mem=3 timeout=900
+var_order_unit!(var_order_33_33, 33, 33);
+// @unit name=var_order_32_64 props=C11 kind=bounded bound=lengths_32_and_64_contents_symbolic fns=variable::encode_one,variable::encode_blocks,variable::encode_empty,variable::padded_length,variable::non_null_padded_length mem=3 timeout=900
+var_order_unit!(var_order_32_64, 32, 64);
+// @unit name=var_order_64_65 props=C11 kind=bounded bound=lengths_64_and_65_contents_symbolic fns=variable::encode_one,variable::encode_blocks,variable::encode_empty,variable::padded_length,variable::non_null_padded_length mem=3 timeout=900
+var_order_unit!(var_order_64_65, 64, 65);
+// thorough: equal lengths, prefix pairs across edges, reversed roles
+// @unit name=var_order_0_0 props=C11 kind=bounded bound=lengths_0_and_0_contents_symbolic fns=variable::encode_one,variable::encode_blocks,variable::encode_empty,variable::padded_length,variable::non_null_padded_length tier=thorough mem=3 timeout=900
+var_order_unit!(var_order_0_0, 0, 0);
+// @unit name=var_order_8_8 props=C11 kind=bounded bound=lengths_8_and_8_contents_symbolic fns=variable::encode_one,variable::encode_blocks,variable::encode_empty,variable::padded_length,variable::non_null_padded_length tier=thorough mem=3 timeout=900
+var_order_unit!(var_order_8_8, 8, 8);
+// @unit name=var_order_9_9 props=C11 kind=bounded bound=lengths_9_and_9_contents_symbolic fns=variable::encode_one,variable::encode_blocks,variable::encode_empty,variable::padded_length,variable::non_null_padded_length tier=thorough mem=3 timeout=900
+var_order_unit!(var_order_9_9, 9, 9);
+// @unit name=var_order_8_16 props=C11 kind=bounded bound=lengths_8_and_16_contents_symbolic fns=variable::encode_one,variable::encode_blocks,variable::encode_empty,variable::padded_length,variable::non_null_padded_length tier=thorough mem=3 timeout=900
+var_order_unit!(var_order_8_16, 8, 16);
+// @unit name=var_order_1_9 props=C11 kind=bounded bound=lengths_1_and_9_contents_symbolic fns=variable::encode_one,variable::encode_blocks,variable::encode_empty,variable::padded_length,variable::non_null_padded_length tier=thorough mem=3 timeout=900
+var_order_unit!(var_order_1_9, 1, 9);
+// @unit name=var_order_17_24 props=C11 kind=bounded bound=lengths_17_and_24_contents_symbolic fns=variable::encode_one,variable::encode_blocks,variable::encode_empty,variable::padded_length,variable::non_null_padded_length tier=thorough mem=3 timeout=900
+var_order_unit!(var_order_17_24, 17, 24);
+// @unit name=var_order_25_32 props=C11 kind=bounded bound=lengths_25_and_32_contents_symbolic fns=variable::encode_one,variable::encode_blocks,variable::encode_empty,variable::padded_length,variable::non_null_padded_length tier=thorough mem=3 timeout=900
+var_order_unit!(var_order_25_32, 25, 32);
+// @unit name=var_order_32_32 props=C11 kind=bounded bound=lengths_32_and_32_contents_symbolic fns=variable::encode_one,variable::encode_blocks,variable::encode_empty,variable::padded_length,variable::non_null_padded_length tier=thorough mem=3 timeout=900
+var_order_unit!(var_order_32_32, 32, 32);
+// @unit name=var_order_33_40 props=C11 kind=bounded bound=lengths_33_and_40_contents_symbolic fns=variable::encode_one,variable::encode_blocks,variable::encode_empty,variable::padded_length,variable::non_null_padded_length tier=thorough mem=3 timeout=900
+var_order_unit!(var_order_33_40, 33, 40);
+// @unit name=var_order_40_64 props=C11 kind=bounded bound=lengths_40_and_64_contents_symbolic fns=variable::encode_one,variable::encode_blocks,variable::encode_empty,variable::padded_length,variable::non_null_padded_length tier=thorough mem=3 timeout=900
+var_order_unit!(var_order_40_64, 40, 64);
+// @unit name=var_order_33_65 props=C11 kind=bounded bound=lengths_33_and_65_contents_symbolic fns=variable::encode_one,variable::encode_blocks,variable::encode_empty,variable::padded_length,variable::non_null_padded_length tier=thorough mem=3 timeout=900
+var_order_unit!(var_order_33_65, 33, 65);
+// @unit name=var_order_65_65 props=C11 kind=bounded bound=lengths_65_and_65_contents_symbolic fns=variable::encode_one,variable::encode_blocks,variable::encode_empty,variable::padded_length,variable::non_null_padded_length tier=thorough mem=3 timeout=900
+var_order_unit!(var_order_65_65, 65, 65);
+// @unit name=var_order_1_33 props=C11 kind=bounded bound=lengths_1_and_33_contents_symbolic fns=variable::encode_one,variable::encode_blocks,variable::encode_empty,variable::padded_length,variable::non_null_padded_length tier=thorough mem=3 timeout=900
+var_order_unit!(var_order_1_33, 1, 33);
+// @unit name=var_order_8_33 props=C11 kind=bounded bound=lengths_8_and_33_contents_symbolic fns=variable::encode_one,variable::encode_blocks,variable::encode_empty,variable::padded_length,variable::non_null_padded_length tier=thorough mem=3 timeout=900
+var_order_unit!(var_order_8_33, 8, 33);
+// @unit name=var_order_9_8 props=C11 kind=bounded bound=lengths_9_and_8_contents_symbolic fns=variable::encode_one,variable::encode_blocks,variable::encode_empty,variable::padded_length,variable::non_null_padded_length tier=thorough mem=3 timeout=900
+var_order_unit!(var_order_9_8, 9, 8);
+// @unit name=var_order_33_32 props=C11 kind=bounded bound=lengths_33_and_32_contents_symbolic fns=variable::encode_one,variable::encode_blocks,variable::encode_empty,variable::padded_length,variable::non_null_padded_length tier=thorough mem=3 timeout=900
+var_order_unit!(var_order_33_32, 33, 32);
+// @unit name=var_order_65_64 props=C11 kind=bounded bound=lengths_65_and_64_contents_symbolic fns=variable::encode_one,variable::encode_blocks,variable::encode_empty,variable::padded_length,variable::non_null_padded_length tier=thorough mem=3 timeout=900
+var_order_unit!(var_order_65_64, 65, 64);
+
+// Contract (C11), variable-length encoding, INVERSE part, at a concrete length L and concrete `descending`
+// (symbolic contents and nulls_first): decoded_len(enc) == L; decode_blocks consumes exactly the encoded
+// length, reports blocks of <= 32 bytes whose concatenation, complemented iff descending (as decode_binary
+// does afterwards), is the original byte string.
+fn var_rt<const L: usize, const DESC: bool, const NA: usize>() {
+    let a: [u8; L] = kani::any();
+    let opts = SortOptions { descending: DESC, nulls_first: kani::any() };
+    let mut oa = [0u8; NA];
+    let na = encode_one(&mut oa, Some(&a), opts);
+    assert!(na == spec_padded(L));
+    assert!(decoded_len(&oa[..na], opts) == L);
+    let mut back = [0u8; L];
+    let mut n = 0usize;
+    let mut bad = false;
+    let used = decode_blocks(&oa[..na], opts, |blk| {
+        if blk.len() > 32 { bad = true; }
+        let mut k = 0;
+        while k < 32 {
+            if k < blk.len() { if n < L { back[n] = blk[k]; n += 1; } else { bad = true; } }
+            k += 1;
+        }
+    });
+    assert!(used == na && n == L && !bad);
+    let mut k = 0;
+    while k < L { assert!((if DESC { !back[k] } else { back[k] }) == a[k]); k += 1; }
+    kani::cover!(L == 0 || a[L - 1] == 0xFF);
+    kani::cover!(L == 0 || a[0] == 0);
+}
+macro_rules! var_rt_unit {
+    ($name:ident, $l:expr, $d:expr) => {
+        #[kani::proof]
+        fn $name() { var_rt::<$l, $d, { spec_padded($l) + 1 }>() }
+    };
+}
+// @unit name=var_rt_0_asc props=C11 kind=bounded bound=length_0_ascending_contents_symbolic fns=variable::encode_one,variable::encode_blocks,variable::decode_blocks,variable::decoded_len mem=3 timeout=900
+var_rt_unit!(var_rt_0_asc, 0, false);
+// @unit name=var_rt_0_desc props=C11 kind=bounded bound=length_0_descending_contents_symbolic fns=variable::encode_one,variable::encode_blocks,variable::decode_blocks,variable::decoded_len tier=thorough mem=3 timeout=900
+var_rt_unit!(var_rt_0_desc, 0, true);
+// @unit name=var_rt_1_asc props=C11 kind=bounded bound=length_1_ascending_contents_symbolic fns=variable::encode_one,variable::encode_blocks,variable::decode_blocks,variable::decoded_len tier=thorough mem=3 timeout=900
+var_rt_unit!(var_rt_1_asc, 1, false);
+// @unit name=var_rt_1_desc props=C11 kind=bounded bound=length_1_descending_contents_symbolic fns=variable::encode_one,variable::encode_blocks,variable::decode_blocks,variable::decoded_len mem=3 timeout=900
+var_rt_unit!(var_rt_1_desc, 1, true);
+// @unit name=var_rt_7_asc props=C11 kind=bounded bound=length_7_ascending_contents_symbolic fns=variable::encode_one,variable::encode_blocks,variable::decode_blocks,variable::decoded_len mem=3 timeout=900
+var_rt_unit!(var_rt_7_asc, 7, false);
+// @unit name=var_rt_7_desc props=C11 kind=bounded bound=length_7_descending_contents_symbolic fns=variable::encode_one,variable::encode_blocks,variable::decode_blocks,variable::decoded_len tier=thorough mem=3 timeout=900
+var_rt_unit!(var_rt_7_desc, 7, true);
+// @unit name=var_rt_8_asc props=C11 kind=bounded bound=length_8_ascending_contents_symbolic fns=variable::encode_one,variable::encode_blocks,variable::decode_blocks,variable::decoded_len tier=thorough mem=3 timeout=900
+var_rt_unit!(var_rt_8_asc, 8, false);
+// @unit name=var_rt_8_desc props=C11 kind=bounded bound=length_8_descending_contents_symbolic fns=variable::encode_one,variable::encode_blocks,variable::decode_blocks,variable::decoded_len mem=3 timeout=900
+var_rt_unit!(var_rt_8_desc, 8, true);
+// @unit name=var_rt_9_asc props=C11 kind=bounded bound=length_9_ascending_contents_symbolic fns=variable::encode_one,variable::encode_blocks,variable::decode_blocks,variable::decoded_len mem=3 timeout=900
+var_rt_unit!(var_rt_9_asc, 9, false);
+// @unit name=var_rt_9_desc props=C11 kind=bounded bound=length_9_descending_contents_symbolic fns=variable::encode_one,variable::encode_blocks,variable::decode_blocks,variable::decoded_len tier=thorough mem=3 timeout=900
+var_rt_unit!(var_rt_9_desc, 9, true);
+// @unit name=var_rt_16_asc props=C11 kind=bounded bound=length_16_ascending_contents_symbolic fns=variable::encode_one,variable::encode_blocks,variable::decode_blocks,variable::decoded_len tier=thorough mem=3 timeout=900
+var_rt_unit!(var_rt_16_asc, 16, false);
+// @unit name=var_rt_16_desc props=C11 kind=bounded bound=length_16_descending_contents_symbolic fns=variable::encode_one,variable::encode_blocks,variable::decode_blocks,variable::decoded_len mem=3 timeout=900
+var_rt_unit!(var_rt_16_desc, 16, true);
+// @unit name=var_rt_17_asc props=C11 kind=bounded bound=length_17_ascending_contents_symbolic fns=variable::encode_one,variable::encode_blocks,variable::decode_blocks,variable::decoded_len mem=3 timeout=900
+var_rt_unit!(var_rt_17_asc, 17, false);
+// @unit name=var_rt_17_desc props=C11 kind=bounded bound=length_17_descending_contents_symbolic fns=variable::encode_one,variable::encode_blocks,variable::decode_blocks,variable::decoded_len tier=thorough mem=3 timeout=900
+var_rt_unit!(var_rt_17_desc, 17, true);
+// @unit name=var_rt_24_asc props=C11 kind=bounded bound=length_24_ascending_contents_symbolic fns=variable::encode_one,variable::encode_blocks,variable::decode_blocks,variable::decoded_len tier=thorough mem=3 timeout=900
+var_rt_unit!(var_rt_24_asc, 24, false);
+// @unit name=var_rt_24_desc props=C11 kind=bounded bound=length_24_descending_contents_symbolic fns=variable::encode_one,variable::encode_blocks,variable::decode_blocks,variable::decoded_len mem=3 timeout=900
+var_rt_unit!(var_rt_24_desc, 24, true);
+// @unit name=var_rt_25_asc props=C11 kind=bounded bound=length_25_ascending_contents_symbolic fns=variable::encode_one,variable::encode_blocks,variable::decode_blocks,variable::decoded_len mem=3 timeout=900
+var_rt_unit!(var_rt_25_asc, 25, false);
+// @unit name=var_rt_25_desc props=C11 kind=bounded bound=length_25_descending_contents_symbolic fns=variable::encode_one,variable::encode_blocks,variable::decode_blocks,variable::decoded_len tier=thorough mem=3 timeout=900
+var_rt_unit!(var_rt_25_desc, 25, true);
+// @unit name=var_rt_31_asc props=C11 kind=bounded bound=length_31_ascending_contents_symbolic fns=variable::encode_one,variable::encode_blocks,variable::decode_blocks,variable::decoded_len tier=thorough mem=3 timeout=900
+var_rt_unit!(var_rt_31_asc, 31, false);
+// @unit name=var_rt_31_desc props=C11 kind=bounded bound=length_31_descending_contents_symbolic fns=variable::encode_one,variable::encode_blocks,variable::decode_blocks,variable::decoded_len mem=3 timeout=900
+var_rt_unit!(var_rt_31_desc, 31, true);
+// @unit name=var_rt_32_asc props=C11 kind=bounded bound=length_32_ascending_contents_symbolic fns=variable::encode_one,variable::encode_blocks,variable::decode_blocks,variable::decoded_len mem=3 timeout=900
+var_rt_unit!(var_rt_32_asc, 32, false);
+// @unit name=var_rt_32_desc props=C11 kind=bounded bound=length_32_descending_contents_symbolic fns=variable::encode_one,variable::encode_blocks,variable::decode_blocks,variable::decoded_len tier=thorough mem=3 timeout=900
+var_rt_unit!(var_rt_32_desc, 32, true);
+// @unit name=var_rt_33_asc props=C11 kind=bounded bound=length_33_ascending_contents_symbolic fns=variable::encode_one,variable::encode_blocks,variable::decode_blocks,variable::decoded_len tier=thorough mem=3 timeout=900
+var_rt_unit!(var_rt_33_asc, 33, false);
+// @unit name=var_rt_33_desc props=C11 kind=bounded bound=length_33_descending_contents_symbolic fns=variable::encode_one,variable::encode_blocks,variable::decode_blocks,variable::decoded_len mem=3 timeout=900
+var_rt_unit!(var_rt_33_desc, 33, true);
+// @unit name=var_rt_40_asc props=C11 kind=bounded bound=length_40_ascending_contents_symbolic fns=variable::encode_one,variable::encode_blocks,variable::decode_blocks,variable::decoded_len mem=3 timeout=900
+var_rt_unit!(var_rt_40_asc, 40, false);
+// @unit name=var_rt_40_desc props=C11 kind=bounded bound=length_40_descending_contents_symbolic fns=variable::encode_one,variable::encode_blocks,variable::decode_blocks,variable::decoded_len tier=thorough mem=3 timeout=900
+var_rt_unit!(var_rt_40_desc, 40, true);
+// @unit name=var_rt_64_asc props=C11 kind=bounded bound=length_64_ascending_contents_symbolic fns=variable::encode_one,variable::encode_blocks,variable::decode_blocks,variable::decoded_len tier=thorough mem=3 timeout=900
+var_rt_unit!(var_rt_64_asc, 64, false);
+// @unit name=var_rt_64_desc props=C11 kind=bounded bound=length_64_descending_contents_symbolic fns=variable::encode_one,variable::encode_blocks,variable::decode_blocks,variable::decoded_len mem=3 timeout=900
+var_rt_unit!(var_rt_64_desc, 64, true);
+// @unit name=var_rt_65_asc props=C11 kind=bounded bound=length_65_ascending_contents_symbolic fns=variable::encode_one,variable::encode_blocks,variable::decode_blocks,variable::decoded_len mem=3 timeout=900
+var_rt_unit!(var_rt_65_asc, 65, false);
+// @unit name=var_rt_65_desc props=C11 kind=bounded bound=length_65_descending_contents_symbolic fns=variable::encode_one,variable::encode_blocks,variable::decode_blocks,variable::decoded_len tier=thorough mem=3 timeout=900
+var_rt_unit!(var_rt_65_desc, 65, true);
+
+// Contract (C11): null / empty / non-empty sentinels. encode_one(None) writes the single byte null_sentinel
+// (0 iff nulls_first else 0xFF, never complemented) and returns 1 == padded_length(None); against any
+// non-null value of concrete length L (0 = empty string) the encoded null row compares Less iff nulls_first,
+// for both sort directions; decode_blocks / decoded_len on the null row consume 1 byte and report no data.
+fn var_null<const L: usize, const NA: usize>() {
+    let a: [u8; L] = kani::any();
+    let opts = any_opts();
+    let mut on = [0x55u8; 2];
+    let mut oa = [0u8; NA];
+    let nn = encode_one(&mut on, None, opts);
+    let na = encode_one(&mut oa, Some(&a), opts);
+    assert!(nn == 1 && padded_length(None) == 1 && on[1] == 0x55);
+    assert!(on[0] == if opts.nulls_first { 0 } else { 0xFF });
+    assert!(na == spec_padded(L));
+    let want = if opts.nulls_first { Ordering::Less } else { Ordering::Greater };
+    assert!(lex_s(&on[..nn], &oa[..na]) == want);
+    assert!(lex_s(&oa[..na], &on[..nn]) == rev_if(want, true));
+    let mut calls = 0u32;
+    assert!(decode_blocks(&on[..nn], opts, |_| calls += 1) == 1 && calls == 0);
+    assert!(decoded_len(&on[..nn], opts) == 0);
+    if L == 0 {
+        // empty string: one byte, 1 ascending / 0xFE descending; decodes to nothing
+        assert!(oa[0] == if opts.descending { 0xFE } else { 1 });
+        assert!(decode_blocks(&oa[..na], opts, |_| calls += 1) == 1 && calls == 0);
+        let mut oe = [0u8; 1];
+        assert!(encode_empty(&mut oe, opts) == 1 && oe[0] == oa[0]);
+        let mut o2 = [0u8; 1];
+        assert!(encode_null(&mut o2, opts) == 1 && o2[0] == on[0]);
+    }
+    kani::cover!(opts.nulls_first && opts.descending);
+    kani::cover!(!opts.nulls_first && opts.descending);
+    kani::cover!(!opts.nulls_first && !opts.descending);
+}
+macro_rules! var_null_unit {
+    ($name:ident, $l:expr) => {
+        #[kani::proof]
+        fn $name() { var_null::<$l, { spec_padded($l) + 1 }>() }
+    };
+}
+// @unit name=var_null_0 props=C11 kind=bounded bound=null_vs_empty fns=variable::encode_one,variable::encode_null,variable::encode_empty,variable::decode_blocks,variable::decoded_len,variable::padded_length,null_sentinel timeout=600
+var_null_unit!(var_null_0, 0);
+// @unit name=var_null_1 props=C11 kind=bounded bound=null_vs_length_1 fns=variable::encode_one,variable::encode_null,variable::decode_blocks,null_sentinel timeout=600
+var_null_unit!(var_null_1, 1);
+// @unit name=var_null_33 props=C11 kind=bounded bound=null_vs_length_33 fns=variable::encode_one,variable::encode_null,variable::decode_blocks,null_sentinel timeout=600
+var_null_unit!(var_null_33, 33);
+
+// Contract (C11): padded_length / non_null_padded_length (Kani pair of the Verus proof): for every
+// len < 2^40: equals the closed form 1 + ceil(len/8)*9 for len <= 32, 4 + ceil(len/32)*33 above; monotone
+// (p(len) <= p(len+1)); strictly larger than len (room for sentinel + markers); padded_length(None) == 1.
+// ceil is written as (len + d - 1) / d with a constant divisor on the spec side.
+// @unit name=padded_length_pair props=C11 kind=bounded bound=len<2^40 fns=variable::padded_length,variable::non_null_padded_length timeout=300
+#[kani::proof]
+fn padded_length_pair() {
+    let len: usize = kani::any();
+    kani::assume(len < (1usize << 40));
+    let p = non_null_padded_length(len);
+    assert!(p == spec_padded(len));
+    assert!(padded_length(Some(len)) == p);
+    assert!(padded_length(None) == 1);
+    let q = non_null_padded_length(len + 1);
+    assert!(p <= q);
+    assert!(p > len);
+    // strictly positive step exactly at block edges
+    assert!((q > p) == (if len < 32 { len % 8 == 0 } else { len % 32 == 0 }));
+    kani::cover!(len == 32 && p == 37 && q == 70);
+    kani::cover!(len == 200);
+    kani::cover!(len == 0 && p == 1);
+}
+
+// Contract (C11): variable::encode (column-level wrapper) over two values [Some(a: 3 bytes), x] with
+// x = None or Some(empty) (one instance each): offsets[i+1] advances by exactly the encoded length of value i
+// (10 and 1), offsets[0] untouched, row i is written at its own start offset, bytes before/after are kept.
+fn var_encode_2<const SECOND_NULL: bool>() {
+    let a: [u8; 3] = kani::any();
+    let opts = any_opts();
+    let (pre, post): (u8, u8) = (kani::any(), kani::any());
+    let mut data = [0u8; 13];
+    data[0] = pre; data[12] = post;
+    let mut offsets = [1usize, 1, 11];
+    let e: [u8; 0] = [];
+    let vals: [Option<&[u8]>; 2] = [Some(&a), if SECOND_NULL { None } else { Some(&e) }];
+    encode(&mut data, &mut offsets, vals.iter().copied(), opts);
+    assert!(offsets[0] == 1 && offsets[1] == 11 && offsets[2] == 12);
+    assert!(data[0] == pre && data[12] == post);
+    let mut exp = [0u8; 10];
+    assert!(encode_one(&mut exp, Some(&a), opts) == 10);
+    let mut k = 0;
+    while k < 10 { assert!(data[1 + k] == exp[k]); k += 1; }
+    let want11 = if SECOND_NULL { if opts.nulls_first { 0 } else { 0xFF } } else if opts.descending { 0xFE } else { 1 };
+    assert!(data[11] == want11);
+    kani::cover!(opts.descending && opts.nulls_first);
+    kani::cover!(!opts.descending && !opts.nulls_first);
+}
+// @unit name=var_encode_2_null props=C11 kind=bounded bound=2_values_length_3_then_null fns=variable::encode,variable::encode_one timeout=600
+#[kani::proof]
+fn var_encode_2_null() { var_encode_2::<true>() }
+// @unit name=var_encode_2_empty props=C11 kind=bounded bound=2_values_length_3_then_empty fns=variable::encode,variable::encode_one timeout=600
+#[kani::proof]
+fn var_encode_2_empty() { var_encode_2::<false>() }
+
+// Contract (C11): decode_nulls_sentinel on 2 rows of arbitrary bytes: slot i is null iff the first byte of
+// row i equals null_sentinel(options) (0 iff nulls_first else 0xFF); None iff no slot is null.
+// @unit name=dec_nulls_sentinel2 props=C11 kind=bounded bound=2_rows fns=variable::decode_nulls_sentinel,null_sentinel timeout=600
+#[kani::proof]
+fn dec_nulls_sentinel2() {
+    let b0: [u8; 2] = kani::any();
+    let b1: [u8; 2] = kani::any();
+    let opts = any_opts();
+    let rs: [&[u8]; 2] = [&b0, &b1];
+    let n = decode_nulls_sentinel(&rs, opts);
+    let s = if opts.nulls_first { 0u8 } else { 0xFF };
+    let valid = [b0[0] != s, b1[0] != s];
+    assert!(n.is_none() == (valid[0] && valid[1]));
+    if let Some(n) = &n {
+        assert!(n.len() == 2 && n.is_valid(0) == valid[0] && n.is_valid(1) == valid[1]);
+    }
+    kani::cover!(n.is_none());
+    kani::cover!(!valid[0] && valid[1] && opts.nulls_first);
+    kani::cover!(valid[0] && !valid[1] && !opts.nulls_first);
+}
+
+// Contract (C11): encode_null_value writes the 2-byte marker [2, 3] (complemented iff descending) and
+// returns 2; it sorts after the empty string and is distinct from null / empty sentinels; decode_null_value
+// advances every row by exactly 2 bytes.
+// @unit name=null_value_marker props=C11 kind=complete fns=variable::encode_null_value,variable::decode_null_value timeout=300
+#[kani::proof]
+fn null_value_marker() {
+    let opts = any_opts();
+    let mut o = [0x55u8; 3];
+    assert!(encode_null_value(&mut o, opts) == 2);
+    assert!(o[2] == 0x55);
+    assert!(o[0] == if opts.descending { !2u8 } else { 2 } && o[1] == if opts.descending { !3u8 } else { 3 });
+    let mut e = [0u8; 1];
+    encode_empty(&mut e, opts);
+    let mut n = [0u8; 1];
+    encode_null(&mut n, opts);
+    assert!(o[0] != e[0] && o[0] != n[0]);
+    let t: [u8; 2] = kani::any();
+    let r0 = [o[0], o[1], t[0]];
+    let r1 = [o[0], o[1], t[1]];
+    let mut rs: [&[u8]; 2] = [&r0, &r1];
+    decode_null_value(&mut rs, opts);
+    assert!(rs[0].len() == 1 && rs[0][0] == t[0] && rs[1].len() == 1 && rs[1][0] == t[1]);
+    kani::cover!(opts.descending);
+    kani::cover!(!opts.descending);
+}
+
+// Contract (C11): decode_binary::<i32> inverts the column encoding for 2 rows: row 0 = encode_one(Some(a)) with
+// a of concrete length L, row 1 = null (NULL1 = true) or the empty string; `descending` concrete per instance,
+// contents / nulls_first symbolic. Result: len 2; value(0) == a byte for byte; slot 1 is null resp. a valid
+// empty value; each row slice is advanced past its encoding (one foreign trailing byte remains).
+// Arrays forgotten. Stub: alloc::fmt::format.
+fn var_decode_binary<const L: usize, const DESC: bool, const NULL1: bool, const NA: usize>() {
+    let a: [u8; L] = kani::any();
+    let opts = SortOptions { descending: DESC, nulls_first: kani::any() };
+    let mut r0 = [0u8; NA];
+    let n0 = encode_one(&mut r0, Some(&a), opts);
+    assert!(n0 + 1 == NA);
+    let t: [u8; 2] = kani::any();
+    r0[n0] = t[0];
+    let mut r1 = [0u8; 2];
+    let e: [u8; 0] = [];
+    let n1 = encode_one(&mut r1, if NULL1 { None } else { Some(&e) }, opts);
+    assert!(n1 == 1);
+    r1[1] = t[1];
+    let mut rs: [&[u8]; 2] = [&r0, &r1];
+    let arr = decode_binary::<i32>(&mut rs, opts);
+    assert!(arr.len() == 2);
+    assert!(arr.is_valid(0) && arr.is_null(1) == NULL1);
+    let v0 = arr.value(0);
+    assert!(v0.len() == L);
+    let mut k = 0;
+    while k < L { assert!(v0[k] == a[k]); k += 1; }
+    assert!(arr.value(1).len() == 0);
+    assert!(rs[0].len() == 1 && rs[0][0] == t[0] && rs[1].len() == 1 && rs[1][0] == t[1]);
+    kani::cover!(L == 0 || a[0] == 0xFF);
+    kani::cover!(opts.nulls_first);
+    std::mem::forget(arr);
+}
+macro_rules! var_decode_binary_unit {
+    ($name:ident, $l:expr, $d:expr, $n:expr) => {
+        #[kani::proof]
+        #[kani::stub(alloc::fmt::format, stub_format)]
+        fn $name() { var_decode_binary::<$l, $d, $n, { spec_padded($l) + 1 }>() }
+    };
+}
+// @unit name=var_decode_binary_3_asc_null props=C11 kind=bounded bound=2_rows_length_3_and_null fns=variable::decode_binary,variable::decode_blocks,variable::decoded_len,variable::decode_nulls_sentinel mem=4 timeout=1500
+var_decode_binary_unit!(var_decode_binary_3_asc_null, 3, false, true);
+// @unit name=var_decode_binary_9_desc_empty props=C11 kind=bounded bound=2_rows_length_9_and_empty fns=variable::decode_binary,variable::decode_blocks,variable::decoded_len,variable::decode_nulls_sentinel tier=thorough mem=4 timeout=1500
+var_decode_binary_unit!(var_decode_binary_9_desc_empty, 9, true, false);
